@@ -142,9 +142,28 @@ __CPROVER_ensures(__CPROVER_return_value == 0 || __CPROVER_return_value == 1)
 ;
 #endif
 
+#ifdef JOB_B
+/* the reserved words themselves, from the property text (RFC 2606 / 6761 / 7686): the oracle above trusts the tables'
+   length fields, so the tables are checked here, by constant evaluation, against the literal list */
+#define EQC(a, b, n, i) ((i) > (n) || (a)[i] == (b)[i])
+#define EQ10(a, b, n) (EQC(a,b,n,0) && EQC(a,b,n,1) && EQC(a,b,n,2) && EQC(a,b,n,3) && EQC(a,b,n,4) && EQC(a,b,n,5) && EQC(a,b,n,6) && EQC(a,b,n,7) && EQC(a,b,n,8) && EQC(a,b,n,9))
+#define TAB_ROW(tab, k, w, n) __CPROVER_assert(sizeof(tab) / sizeof(tab[0]) > (k) && sizeof(w) == (n) + 1 && tab[k].length == (n) + 1 && EQ10(tab[k].domain, w, n), \
+        "reserved-word table row is \"" w "\" with length strlen+1 (whole-label comparison)")
+static void check_tables(void)
+{
+    __CPROVER_assert(sizeof(reserved) / sizeof(reserved[0]) == 5 && sizeof(example) / sizeof(example[0]) == 3, "five reserved last labels, three example.<tld> labels");
+    TAB_ROW(reserved, 0, "test", 4); TAB_ROW(reserved, 1, "example", 7); TAB_ROW(reserved, 2, "invalid", 7);
+    TAB_ROW(reserved, 3, "localhost", 9); TAB_ROW(reserved, 4, "onion", 5);
+    TAB_ROW(example, 0, "com", 3); TAB_ROW(example, 1, "net", 3); TAB_ROW(example, 2, "org", 3);
+}
+#endif
+
 void harness(void)
 {
     const char *s, *e;
+#ifdef JOB_B
+    check_tables();
+#endif
     int r = is_special_domain(s, e);
 #ifdef JOB_B
     __CPROVER_assert(!(r == 1 && g_prev_example && g_last_ex == 2), "REACH: example.org");
